@@ -107,6 +107,62 @@ func init() {
 						}
 					}
 					failuresRetry = nBefore >= 2 && nAfter >= 1 && lastOwn == "continue"
+					// the same loop with its body in a helper: `req, … = helper(…, req, …)` in the loop function, the failure
+					// branches of the helper `return` instead of `continue`. "The same request again" then means: each of them
+					// returns the helper's request parameter (the one that flows into Query) in the result position the loop
+					// function assigns to its request variable, and the helper's last return does not.
+					if lastOwn == "" && nBefore >= 2 && nAfter >= 1 && iAssign >= 0 && evs[iAssign].assign != nil {
+						as, helper := evs[iAssign].assign, evs[iQuery].fn
+						pos := -1
+						for k, lhs := range as.Lhs {
+							if id, ok := lhs.(*ast.Ident); ok && id.Name == reqVar {
+								pos = k
+							}
+						}
+						innerReq := ""
+						if id, ok := evs[iQuery].call.Args[1].(*ast.Ident); ok {
+							innerReq = id.Name
+						}
+						viaHelper := false
+						if len(as.Rhs) == 1 && helper != nil && helper != run {
+							if c, ok := as.Rhs[0].(*ast.CallExpr); ok && fwCallee(c) == helper.Name.Name {
+								viaHelper = true
+							}
+						}
+						returnsReq := func(r *ast.ReturnStmt) bool {
+							if pos < 0 || pos >= len(r.Results) {
+								return false
+							}
+							id, ok := r.Results[pos].(*ast.Ident)
+							return ok && id.Name == innerReq
+						}
+						if viaHelper && pos >= 0 && innerReq != "" {
+							ok := true
+							for i, e := range evs {
+								if e.kind != "guard" || e.fn != helper || i < iQuery {
+									continue
+								}
+								is, isIf := e.node.(*ast.IfStmt)
+								if e.name != "return" || !isIf || len(is.Body.List) == 0 {
+									ok = false
+									continue
+								}
+								r, isRet := is.Body.List[len(is.Body.List)-1].(*ast.ReturnStmt)
+								if !isRet || !returnsReq(r) {
+									ok = false
+								}
+							}
+							// the helper's last statement: the return after the sink accepted
+							if n := len(helper.Body.List); n > 0 {
+								if r, isRet := helper.Body.List[n-1].(*ast.ReturnStmt); !isRet || returnsReq(r) {
+									ok = false
+								}
+							} else {
+								ok = false
+							}
+							failuresRetry = ok
+						}
+					}
 				}
 				// the retry sleep
 				for _, e := range evs {
